@@ -232,9 +232,9 @@ theorem finishCreate_frame (g : G) (c : Client) (key val : Bytes) (rev : Nat) (r
   · split <;> simp
   · simp
 
-theorem createSawIndex_frame (g : G) (c : Client) (key val : Bytes) (rev : Nat) (old : Bytes) :
-    (createSawIndex g c key val rev old).store = g.store ∧ (createSawIndex g c key val rev old).wlog = g.wlog ∧
-    (createSawIndex g c key val rev old).hist = g.hist := by
+theorem createSawIndex_frame (g : G) (c : Client) (key val : Bytes) (rev : Nat) (old : Bytes) (att : Nat) :
+    (createSawIndex g c key val rev old att).store = g.store ∧ (createSawIndex g c key val rev old att).wlog = g.wlog ∧
+    (createSawIndex g c key val rev old att).hist = g.hist := by
   unfold createSawIndex
   split
   · exact finishCreate_frame ..
@@ -246,8 +246,8 @@ theorem LagG.finishCreate {g0 g : G} (h : LagG g0 g) (c : Client) (key val : Byt
     LagG g0 (finishCreate g c key val rev r) :=
   h.frame (finishCreate_frame ..).1 (finishCreate_frame ..).2.1 (finishCreate_frame ..).2.2
 
-theorem LagG.createSawIndex {g0 g : G} (h : LagG g0 g) (c : Client) (key val : Bytes) (rev : Nat) (old : Bytes) :
-    LagG g0 (createSawIndex g c key val rev old) :=
+theorem LagG.createSawIndex {g0 g : G} (h : LagG g0 g) (c : Client) (key val : Bytes) (rev : Nat) (old : Bytes)
+    (att : Nat) : LagG g0 (createSawIndex g c key val rev old att) :=
   h.frame (createSawIndex_frame ..).1 (createSawIndex_frame ..).2.1 (createSawIndex_frame ..).2.2
 
 /-! ### the control invariant -/
@@ -259,8 +259,8 @@ def CL (d : Nat) (c : Client) : Prop :=
   | .createCommit r => 0 < r ∧ r ≤ d
   | .createReread r => 0 < r ∧ r ≤ d
   | .createRetry r => 0 < r ∧ r ≤ d
-  | .createRecheck r => 0 < r ∧ r ≤ d
-  | .createOver r old => (0 < r ∧ r ≤ d) ∧ ∃ p, parseRevision old = some (p, true) ∧ p < r
+  | .createRecheck r _ => 0 < r ∧ r ≤ d
+  | .createOver r old _ => (0 < r ∧ r ≤ d) ∧ ∃ p, parseRevision old = some (p, true) ∧ p < r
   | .updateCommit r => (0 < r ∧ r ≤ d) ∧ ∀ k v e, c.kind = .update k v e → e < r
   | .deleteCommit r _ m => (0 < r ∧ r ≤ d) ∧ m < r
   | _ => True
@@ -327,7 +327,7 @@ theorem Ctl.finishCreate {g : G} (h : Ctl g) (c : Client) (key val : Bytes) {rev
   · exact h'.finish ..
 
 theorem Ctl.createSawIndex {g : G} (h : Ctl g) (c : Client) (key val : Bytes) {rev : Nat}
-    (hr : 0 < rev ∧ rev ≤ g.dealt) (old : Bytes) : Ctl (createSawIndex g c key val rev old) := by
+    (hr : 0 < rev ∧ rev ≤ g.dealt) (old : Bytes) (att : Nat) : Ctl (createSawIndex g c key val rev old att) := by
   unfold KB.createSawIndex
   split
   · exact h.finishCreate c key val hr.2 _
@@ -370,31 +370,33 @@ theorem Ctl.stepClient {g : G} (h : Ctl g) {c : Client} (hc : c ∈ g.clients) (
     have hA := h.afterCommit r st f key rev (some val) .absent
     split
     · split
-      · exact hA.createSawIndex c key val (by simpa using hci) _
+      · exact hA.createSawIndex c key val (by simpa using hci) _ _
       · exact hA.setClient (by simpa [CL] using hci)
     · exact hA.finishCreate c key val (by simpa using hci.2) _
   · -- createReread
     intro rev key val hpc
     simp only [CL, hpc] at hci
     split
-    · exact h.createSawIndex c key val hci _
+    · exact h.createSawIndex c key val hci _ _
     · exact h.setClient (by simpa [CL] using hci)
   · -- createRetry
     intro rev key val r st hpc _
     simp only [CL, hpc] at hci
     exact (h.afterCommit r st f key rev (some val) .absent).finishCreate c key val (by simpa using hci.2) _
   · -- createOver
-    intro rev old key val r st hpc _
+    intro rev old att key val r st hpc _
     simp only [CL, hpc] at hci
     have hA := h.afterCommit r st f key rev (some val) .absent
     split
     · exact hA.setClient (by simpa [CL] using hci.1)
     · exact hA.finishCreate c key val (by simpa using hci.1.2) _
   · -- createRecheck
-    intro rev key val hpc
+    intro rev att key val hpc
     simp only [CL, hpc] at hci
     split
-    · exact h.finishCreate c key val hci.2 _
+    · split
+      · exact h.finishCreate c key val hci.2 _
+      · exact h.createSawIndex c key val hci _ _
     · exact h.setClient (by simpa [CL] using hci)
   · -- updateCommit
     intro rev key val exp r st hpc _ _
@@ -576,7 +578,7 @@ theorem LagG.stepClient {g0 g : G} (hwf0 : KeyWF g0.store) (hctl : Ctl g) (hb : 
       · exact .inr hn
     exact hA.finishCreate ..
   · -- createOver: the creator only overwrites a deletion record OLDER than its revision
-    intro rev old key val r st hpc hdc
+    intro rev old att key val r st hpc hdc
     simp only [CL, hpc] at hci
     obtain ⟨⟨h0, hle⟩, p, hp, hlt⟩ := hci
     have hA : LagG g0 (SysStore.afterCommit g r st f key rev (some val) .absent) := by
@@ -591,7 +593,9 @@ theorem LagG.stepClient {g0 g : G} (hwf0 : KeyWF g0.store) (hctl : Ctl g) (hb : 
   · -- createRecheck
     intros
     split
-    · exact h.finishCreate ..
+    · split
+      · exact h.finishCreate ..
+      · exact h.createSawIndex ..
     · exact h.frame rfl rfl rfl
   · -- updateCommit: `deal` refused `rev ≤ exp`
     intro rev key val exp r st hpc hk hdc
